@@ -51,7 +51,8 @@ func c06Policy(name string) *ae.CryptoPolicy {
 // idPieces are the building blocks of adversarial partition ids.
 func c06ID(r *gen.Rand, svc, prod string) string {
 	pieces := []string{"a", "b", "p1", "_", "__", "_IK_", "_SK_", svc, prod, "_" + svc, "_" + svc + "_" + prod,
-		"us-west-2", "_us-west-2", "0", "17", " ", "x_y", "", "é", "\x00", "a_" + svc + "_" + prod + "_x"}
+		"us-west-2", "_us-west-2", "0", "17", " ", "x_y", "", "é", "\x00", "a_" + svc + "_" + prod + "_x",
+		"%", "%s", "%d", "%%", "%2F", "{0}", "\\", "'"}
 	n := 1 + r.Intn(4)
 	s := ""
 	for i := 0; i < n; i++ {
@@ -90,6 +91,17 @@ func runC06(a *args) error {
 		for _, pair := range c06Sweep("svc", "prod", 500000) {
 			cases = append(cases, c06Case{P: gen.H(pair[0]), Q: gen.H(pair[1]), Svc: gen.H("svc"), Prod: gen.H("prod")})
 		}
+		// ... and every pair of a small family of ids full of formatting verbs, escapes and templates, under each suffix mode
+		for _, sfx := range []string{"", "us-west-2"} {
+			for _, pair := range c06VerbSweep("svc", "prod", sfx) {
+				c := c06Case{P: gen.H(pair[0]), Q: gen.H(pair[1]), Svc: gen.H("svc"), Prod: gen.H("prod")}
+				if sfx != "" {
+					h := gen.H(sfx)
+					c.Suffix, c.SuffixQ = &h, &h
+				}
+				cases = append(cases, c)
+			}
+		}
 	}
 	svcs := []string{"svc", "s", "a_b", "_", "prod", ""}
 	prods := []string{"prod", "p", "svc", "x_y", "_", ""}
@@ -116,7 +128,12 @@ func runC06(a *args) error {
 		} else {
 			svc, prod = gen.Pick(r, svcs), gen.Pick(r, prods)
 			p = c06ID(r, svc, prod)
-			switch r.Intn(7) {
+			switch r.Intn(8) {
+			case 7: // ids that differ only in something a formatting / templating / unescaping step would identify or swallow
+				v := gen.Pick(r, [][2]string{{"%2F", "%3F"}, {"%%", "%5%"}, {"%[8]s", "%[9]s"}, {"%s", "%v"}, {"%d", "%x"}, {"%", "%!"},
+					{"%2f", "%2F"}, {"{0}", "{1}"}, {"\\n", "\n"}, {"%00", "\x00"}, {"+", " "}, {"&amp;", "&"}})
+				pre, post := gen.Pick(r, []string{"", "acme", p}), gen.Pick(r, []string{"", "bob", "_" + svc})
+				p, q = pre+v[0]+post, pre+v[1]+post
 			case 6: // long ids that agree on a long prefix (a length limit or a truncating format would identify them)
 				n := gen.Pick(r, []int{60, 120, 127, 128, 129, 200, 255, 256, 300})
 				long := strings.Repeat(gen.Pick(r, []string{"tenant-0123456789/", "x", "ab_"}), n)[:n]
@@ -285,6 +302,30 @@ func c06Sweep(svc, prod string, per int) [][2]string {
 			}
 			seen[k] = int32(i)
 		}
+	}
+	return out
+}
+
+// c06VerbSweep: partition ids built around formatting verbs, escapes and templates; returns up to two pairs of different ids whose
+// intermediate-key or system-key... (only the intermediate-key id is partition-specific) ids coincide under the given region suffix.
+func c06VerbSweep(svc, prod, suffix string) [][2]string {
+	verbs := []string{"%s", "%d", "%v", "%x", "%q", "%2F", "%3F", "%2f", "%%", "%5%", "%[8]s", "%[9]s", "%[1]s", "%", "%!", "%!s(MISSING)",
+		"{0}", "{1}", "{}", "${x}", "$1", "\\", "\\n", "\n", "+", " ", "&amp;", "&", "%00", "\x00", "%c", "%U", "%e", "%t", "%T", "%p", "%b", "%o", "%*d", "%.2f"}
+	var ids []string
+	for _, v := range verbs {
+		ids = append(ids, "acme"+v+"bob", v, "t"+v, v+"z")
+	}
+	seen := map[string]string{}
+	var out [][2]string
+	for _, id := range ids {
+		_, ik := ae.VerifKeyIDs(id, svc, prod, suffix)
+		if other, ok := seen[ik]; ok && other != id {
+			if len(out) < 2 {
+				out = append(out, [2]string{other, id})
+			}
+			continue
+		}
+		seen[ik] = id
 	}
 	return out
 }
